@@ -1,2 +1,315 @@
--- stub driver for C08: replaced when the property's model exists
-def main : IO Unit := pure ()
+import Snel.Model.Proto
+import Snel.Model.C08Enc
+import Snel.Model.C08Trie
+import Snel.Model.C08Zone
+open Snel Snel.Proto Snel.C08
+
+/-! Line-protocol driver for the C08 streams. Tokens are space separated; byte strings in hex
+(`-` = empty). A malformed line answers `bad-op`. -/
+
+def bytesOf (tok : String) : Option (List Nat) := (unhex tok).map fun bs => bs.map (·.toNat)
+def hexOf (bs : List Nat) : String := hexOfBytes (bs.map UInt8.ofNat)
+
+def hex64? (s : String) : Option Nat :=
+  if s.length != 16 then none
+  else s.toList.foldlM (fun acc c => (hexVal c).map fun v => acc * 16 + v) 0
+
+def int? (s : String) : Option Int :=
+  if s.startsWith "-" then (s.drop 1).toNat?.map fun n => -(n : Int)
+  else s.toNat?.map fun n => (n : Int)
+
+/-- value token: `n` null, `b0`/`b1`, `i<u64 pattern>`, `t<u64 pattern>`, `d<16 hex>`,
+`s<hex>:<16 hex | ->` (string and what `parse::<f64>` said), `y` binary, `m` field missing. -/
+def sv? (tok : String) : Option (Option SV) :=
+  if tok == "m" then some none
+  else if tok == "n" then some (some .null)
+  else if tok == "y" then some (some .binary)
+  else if tok == "b0" then some (some (.bool false))
+  else if tok == "b1" then some (some (.bool true))
+  else
+    let rest := (tok.drop 1).toString
+    match tok.front with
+    | 'i' => rest.toNat?.bind fun x => if x < two64 then some (some (.int64 x)) else none
+    | 't' => rest.toNat?.bind fun x => if x < two64 then some (some (.ts x)) else none
+    | 'd' => (hex64? rest).map fun b => some (.f64 b)
+    | 's' =>
+      match rest.splitOn ":" with
+      | [h, "-"] => (bytesOf h).map fun bs => some (.utf8 bs none)
+      | [h, p] => do
+        let bs ← bytesOf h
+        let b ← hex64? p
+        some (some (.utf8 bs (some b)))
+      | _ => none
+    | _ => none
+
+def encTok (o : Option (List Nat)) : String :=
+  match o with
+  | none => "none"
+  | some bs => hexOf bs
+
+/-- Take `n` items with `f` from a token list. -/
+def takeN {α} (f : List String → Option (α × List String)) : Nat → List String → Option (List α × List String)
+  | 0, ts => some ([], ts)
+  | n + 1, ts => do
+    let (a, ts1) ← f ts
+    let (as, ts2) ← takeN f n ts1
+    some (a :: as, ts2)
+
+def takeNat : List String → Option (Nat × List String)
+  | t :: ts => t.toNat?.map fun n => (n, ts)
+  | [] => none
+
+def takeInt : List String → Option (Int × List String)
+  | t :: ts => (int? t).map fun n => (n, ts)
+  | [] => none
+
+def takeBytes : List String → Option (List Nat × List String)
+  | t :: ts => (bytesOf t).map fun b => (b, ts)
+  | [] => none
+
+def takeSv : List String → Option (Option SV × List String)
+  | t :: ts => (sv? t).map fun v => (v, ts)
+  | [] => none
+
+/-- `<count> item*` -/
+def takeCounted {α} (f : List String → Option (α × List String)) (ts : List String) : Option (List α × List String) := do
+  let (n, ts1) ← takeNat ts
+  takeN f n ts1
+
+def idList (zs : List Nat) : String :=
+  if zs.isEmpty then "-" else ",".intercalate (zs.map toString)
+
+def natList (xs : Array Nat) : String :=
+  if xs.isEmpty then "-" else ",".intercalate (xs.toList.map toString)
+
+def boolTok (b : Bool) : String := if b then "1" else "0"
+
+/-! ### streams -/
+
+def ansRaw : List String → String
+  | [k, x, y] =>
+    match x.toNat?, y.toNat? with
+    | some x, some y =>
+      if x ≥ two64 || y ≥ two64 then "bad-op"
+      else if k == "i" then s!"{hexOf (encI64 x)} {hexOf (encI64 y)} {boolTok (decide (i64Val x < i64Val y))}"
+      else if k == "u" then s!"{hexOf (encU64 x)} {hexOf (encU64 y)} {boolTok (decide (x < y))}"
+      else if k == "f" then
+        let num :=
+          if f64IsNaN x || f64IsNaN y then "un"
+          else if (x % two63 == 0) && (y % two63 == 0) then "eq"
+          else if f64Key x < f64Key y then "lt" else if f64Key x = f64Key y then "eq" else "gt"
+        s!"{hexOf (encF64 x)} {hexOf (encF64 y)} {boolTok (decide (f64Lt x y))} {num}"
+      else "bad-op"
+    | _, _ => "bad-op"
+  | _ => "bad-op"
+
+def ansEnc (ts : List String) : String :=
+  match ts.mapM sv? with
+  | some vs => " ".intercalate (vs.map fun o => match o with
+      | some v => encTok (encodeValue v)
+      | none => "missing")
+  | none => "bad-op"
+
+def ansTrie (ts : List String) : String :=
+  match ts.mapM bytesOf with
+  | some ks =>
+    let f := flatten (build ks)
+    s!"deg={natList f.degrees} off={natList f.childOffsets} lab={natList f.labels} e2c={natList f.edgeToChild} term={natList f.termBits}"
+  | none => "bad-op"
+
+def takeZoneKeys (ts : List String) : Option ((Nat × List (List Nat)) × List String) := do
+  let (z, ts1) ← takeNat ts
+  let (ks, ts2) ← takeCounted takeBytes ts1
+  some ((z, ks), ts2)
+
+/-- probe token pair: `gi|ge|li|le` (ge/le × inclusive/exclusive) then the bound. -/
+def takeProbe (ts : List String) : Option ((Bool × Bool × List Nat) × List String) :=
+  match ts with
+  | k :: b :: rest =>
+    match bytesOf b with
+    | some bs =>
+      if k == "gi" then some ((true, true, bs), rest)
+      else if k == "ge" then some ((true, false, bs), rest)
+      else if k == "li" then some ((false, true, bs), rest)
+      else if k == "le" then some ((false, false, bs), rest)
+      else none
+    | none => none
+  | _ => none
+
+def ansSurf (ts : List String) : String :=
+  match (do
+    let (zs, ts1) ← takeCounted takeZoneKeys ts
+    let (ps, ts2) ← takeCounted takeProbe ts1
+    if ts2.isEmpty then some (zs, ps) else none) with
+  | none => "bad-op"
+  | some (zs, ps) =>
+    let trees := zs.map fun p => (p.1, build p.2)
+    let flats := trees.map fun p => (p.1, flatten p.2)
+    let outs := ps.map fun (ge, incl, b) =>
+      let viaFlat := (flats.filter fun e => if ge then e.2.mayOverlapGe b incl else e.2.mayOverlapLe b incl).map (·.1)
+      let viaTree := zonesOverlapping trees ge b incl
+      (if viaFlat == viaTree then "" else "TIE-BROKEN:") ++ idList viaFlat
+    if outs.isEmpty then "-" else " ".intercalate outs
+
+def takeZoneVals (ts : List String) : Option ((Nat × List (Option SV)) × List String) := do
+  let (z, ts1) ← takeNat ts
+  let (vs, ts2) ← takeCounted takeSv ts1
+  some ((z, vs), ts2)
+
+def takeLitProbe (ts : List String) : Option ((Bool × Bool × SV) × List String) :=
+  match ts with
+  | k :: v :: rest =>
+    match sv? v with
+    | some (some sv) =>
+      if k == "gte" then some ((true, true, sv), rest)
+      else if k == "gt" then some ((true, false, sv), rest)
+      else if k == "lte" then some ((false, true, sv), rest)
+      else if k == "lt" then some ((false, false, sv), rest)
+      else none
+    | _ => none
+  | _ => none
+
+def ansSeg (ts : List String) : String :=
+  match (do
+    let (zs, ts1) ← takeCounted takeZoneVals ts
+    let (ps, ts2) ← takeCounted takeLitProbe ts1
+    if ts2.isEmpty then some (zs, ps) else none) with
+  | none => "bad-op"
+  | some (zs, ps) =>
+    match surfBuild zs with
+    | none => "nofilter"
+    | some entries =>
+      let outs := ps.map fun (ge, incl, lit) =>
+        match surfPrune entries ge incl lit with
+        | none => "none"
+        | some z => idList z
+      s!"zones={idList (entries.map (·.1))} " ++ (if outs.isEmpty then "-" else " ".intercalate outs)
+
+def op? (s : String) : Option Op :=
+  if s == "eq" then some .eq else if s == "neq" then some .neq else if s == "gt" then some .gt
+  else if s == "gte" then some .gte else if s == "lt" then some .lt else if s == "lte" then some .lte else none
+
+def takeStr : List String → Option (String × List String)
+  | t :: ts => some (t, ts)
+  | [] => none
+
+def takeZoneStrs (ts : List String) : Option ((Nat × List String) × List String) := do
+  let (z, ts1) ← takeNat ts
+  let (vs, ts2) ← takeCounted takeStr ts1
+  some ((z, vs), ts2)
+
+def takeEbmProbe (ts : List String) : Option ((Op × Nat) × List String) :=
+  match ts with
+  | o :: v :: rest =>
+    match op? o, v.toNat? with
+    | some op, some vid => some ((op, vid), rest)
+    | _, _ => none
+  | _ => none
+
+/-- `ebm <rows> <nvar> var* <nz> (zone <n> val*)* <np> (op vid)*`; strings stay hex tokens. -/
+def ansEbm (ts : List String) : String :=
+  match (do
+    let (rows, t1) ← takeNat ts
+    let (vars, t2) ← takeCounted takeStr t1
+    let (zs, t3) ← takeCounted takeZoneStrs t2
+    let (ps, t4) ← takeCounted takeEbmProbe t3
+    if t4.isEmpty then some (rows, vars, zs, ps) else none) with
+  | none => "bad-op"
+  | some (rows, vars, zs, ps) =>
+    match ebmBuild vars rows zs with
+    | none => "panic"
+    | some built =>
+      let outs := ps.map fun (op, vid) => idList (sortDedupN (ebmPrune built op vid))
+      if outs.isEmpty then "-" else " ".intercalate outs
+
+inductive TProbe where
+  | cmp (op : Op) (v : Int)
+  | rng (lo hi : Int)
+
+def takeTProbe (ts : List String) : Option (TProbe × List String) :=
+  match ts with
+  | "rng" :: a :: b :: rest =>
+    match int? a, int? b with
+    | some lo, some hi => some (.rng lo hi, rest)
+    | _, _ => none
+  | o :: v :: rest =>
+    match op? o, int? v with
+    | some op, some x => some (.cmp op x, rest)
+    | _, _ => none
+  | _ => none
+
+/-- `zti <stride> <n> ts* <np> probe*` -/
+def ansZti (ts : List String) : String :=
+  match (do
+    let (stride, t1) ← takeInt ts
+    let (vals, t2) ← takeCounted takeInt t1
+    let (ps, t3) ← takeCounted takeTProbe t2
+    if t3.isEmpty then some (stride, vals, ps) else none) with
+  | none => "bad-op"
+  | some (stride, vals, ps) =>
+    if stride < 1 then "bad-op" else
+    let z := Zti.ofTimestamps vals stride
+    let outs := ps.map fun p => match p with
+      | .cmp op v => boolTok (z.mayMatch op v)
+      | .rng lo hi => boolTok (z.mayMatchRange lo hi)
+    s!"{z.minTs} {z.maxTs} {idList z.keys} " ++ (if outs.isEmpty then "-" else "".intercalate outs)
+
+def takeReg (ts : List String) : Option (Reg × List String) :=
+  match ts with
+  | z :: a :: b :: rest =>
+    match z.toNat?, a.toNat?, b.toNat? with
+    | some z, some a, some b => some (⟨z, a, b⟩, rest)
+    | _, _, _ => none
+  | _ => none
+
+/-- `cal <n> (zone min max)* <np> probe*` -/
+def ansCal (ts : List String) : String :=
+  match (do
+    let (regs, t1) ← takeCounted takeReg ts
+    let (ps, t2) ← takeCounted takeTProbe t1
+    if t2.isEmpty then some (regs, ps) else none) with
+  | none => "bad-op"
+  | some (regs, ps) =>
+    let outs := ps.map fun p => match p with
+      | .cmp op v => idList (zonesIntersecting regs op v)
+      | .rng lo hi => idList (zonesIntersectingRange regs lo hi)
+    if outs.isEmpty then "-" else " ".intercalate outs
+
+/-- xor value token: `s<hex>` string, `i<int>`, `t<int>`, `d<hex of f64::to_string()>`, `b0/b1`, `n`. -/
+def xv? (tok : String) : Option XV :=
+  if tok == "n" then some .other
+  else if tok == "b0" then some (.bool false)
+  else if tok == "b1" then some (.bool true)
+  else
+    let rest := (tok.drop 1).toString
+    match tok.front with
+    | 'i' => (int? rest).map .int64
+    | 't' => (int? rest).map .ts
+    | 's' => (unhex rest).bind fun bs => (String.fromUTF8? (ByteArray.mk bs.toArray)).map .utf8
+    | 'd' => (unhex rest).bind fun bs => (String.fromUTF8? (ByteArray.mk bs.toArray)).map .f64
+    | _ => none
+
+/-- `xor v*` → the texts `value_to_string` produces (hex), `none` for unsupported values. -/
+def ansXor (ts : List String) : String :=
+  match ts.mapM xv? with
+  | some vs =>
+    if vs.isEmpty then "-" else
+    " ".intercalate (vs.map fun v => match valueToString v with
+      | some s => hexOfBytes s.toUTF8.toList
+      | none => "none")
+  | none => "bad-op"
+
+def answer (line : String) : String :=
+  match words line with
+  | "raw" :: rest => ansRaw rest
+  | "enc" :: rest => ansEnc rest
+  | "trie" :: rest => ansTrie rest
+  | "surf" :: rest => ansSurf rest
+  | "seg" :: rest => ansSeg rest
+  | "ebm" :: rest => ansEbm rest
+  | "zti" :: rest => ansZti rest
+  | "cal" :: rest => ansCal rest
+  | "xor" :: rest => ansXor rest
+  | _ => "bad-op"
+
+def main : IO Unit := serve answer
